@@ -102,8 +102,19 @@ def st_masks(draw, n, limit_all, n_sample):
     return sorted(masks)
 
 
-def truth_for(cids, codes, mask):
-    return {cid: [codes[cid][0] if (mask >> i) & 1 else codes[cid][1]] for i, cid in enumerate(cids)}
+def truth_for(cids, codes, mask, inv_cids=()):
+    """Truth table of one assignment. A falsy INVARIANT is falsy from its first evaluation on in every second case; in
+    the others it holds once per operation and fails from the second evaluation on, so that the object can still be
+    constructed and the violation is found by the check after a call (the counters restart with every operation)."""
+    out = {}
+    for i, cid in enumerate(cids):
+        if (mask >> i) & 1:
+            out[cid] = [codes[cid][0]]
+        elif cid in inv_cids and (mask + cid) % 2 == 0:
+            out[cid] = [codes[cid][0], codes[cid][1]]
+        else:
+            out[cid] = [codes[cid][1]]
+    return out
 
 
 def explore(ctx, seed, max_examples, case_strategy, judge, limit_all=6, n_sample=24, ref_kw=None,
@@ -143,9 +154,10 @@ def run_one(ctx, case, judge, ref_kw=None, exclude=None, nontrivial=None):
     for f in feats:
         ctx.count("prog:" + f)
     codes = {int(k): v for k, v in case["codes"].items()}
+    inv_cids = {i["cid"] for c in program.get("classes", []) for i in c.get("invs", [])}
     with RUN.Loaded(program) as loaded:
         for mask in case["masks"]:
-            truth = truth_for(cids, codes, mask) if "fixed_truth" not in case else dict(case["fixed_truth"])
+            truth = truth_for(cids, codes, mask, inv_cids) if "fixed_truth" not in case else dict(case["fixed_truth"])
             try:
                 res = H.run_case(program, case["ops"], truth, model=model, loaded=loaded, ref_kw=ref_kw)
             except REF.RefInconsistency as e:
